@@ -74,6 +74,9 @@ type Flow struct {
 	Emitters    []int  `json:"emitters,omitempty"` // shape of the WithEmitter options, see print
 	OptOrder    []int  `json:"opt_order,omitempty"`
 	SplitParams bool   `json:"split_params,omitempty"` // two cff.Params options
+	// ResultsVia: the Results targets are fields reached through a pointer
+	// (&res.r0); the program re-points res when the first user function runs.
+	ResultsVia bool `json:"results_via,omitempty"`
 }
 
 // Coll is a Slice or Map of a Parallel.
